@@ -20,7 +20,7 @@ EXPLANATION = (
     'text is cleared when a status without error arrives; R7 the zone list handed out is not the stored one (C11.R2 re-used).'
 )
 ASSUMPTIONS = ["Enum members are compared by identity; dict lookup of a missing key raises KeyError"]
-FLOORS = {"C10.R1": 14, "C10.R2": 10, "C10.R3": 40, "C10.R4": 8, "C10.R5": 6, "C10.R6": 6, "C10.R7": 1}
+FLOORS = {"C10.R1": 14, "C10.R2": 10, "C10.R3": 40, "C10.R4": 8, "C10.R5": 6, "C10.R6": 6, "C10.R7": 1, "C10.R8": 1}
 
 # getter -> how names are translated (None = identity)
 def _selected_mode(n):
@@ -76,6 +76,15 @@ def run(ctx):
     r4(ctx)
     r5(ctx)
     r6(ctx)
+    from . import c05
+    from .common import reuse as _reuse
+
+    def status_decoders(c):
+        for key, spec in c05.T.STATUS.items():
+            c05.check_decoder(c, key, spec)
+
+    _reuse(ctx, "C10.R8", [status_decoders], "the records the object model stores are decoded as the vendor defines (layout, code tables, affine readings: C05.R1-R3), so an attribute equals the protocol reading of the frame",
+           keep=lambda o: o.rule in ("C05.R1", "C05.R2", "C05.R3") or (o.verdict != "HOLDS" and "not-available" not in o.construct and o.rule != "C05.R4"))
     from . import c11
     from .common import reuse
 
